@@ -202,7 +202,7 @@ def judge_stats(entry, spelling, kind):
 
     if kind == 'dos':
         # a bare LF inside a CRLF-terminated line is part of that line
-        text = text.replace('+new', '+new\nstill the same line')
+        text = text.replace(' ctx', ' ctx\nsame line, ')
     variants = [('as encoded', text.encode(canon))]
     bom = ''.encode(canon)
 
